@@ -2,6 +2,7 @@ package interp
 
 import (
 	"fmt"
+	"go/token"
 )
 
 func init() {
@@ -113,6 +114,18 @@ func init() {
 	verifAPI["verifFixInt"] = func(fr *frame, args []value) value { return fr.concretize(args[0]) }
 	// verifIte builds an if-then-else value without forking.
 	verifAPI["verifIteInt"] = func(fr *frame, args []value) value {
+		if isTerm(args[0]) || isTerm(args[1]) || isTerm(args[2]) {
+			c := fr.toTerm(args[0], nil)
+			var like *Term
+			if t, ok := args[1].(*Term); ok {
+				like = t
+			} else if t, ok := args[2].(*Term); ok {
+				like = t
+			}
+			a := fr.toTerm(args[1], like)
+			b := fr.toTerm(args[2], like)
+			return &Term{s: "(ite " + c.s + " " + a.s + " " + b.s + ")", w: a.w, signed: a.signed}
+		}
 		return fr.lift(args, func(a []value) value {
 			if a[0].(bool) {
 				return a[1]
@@ -123,10 +136,71 @@ func init() {
 	verifAPI["verifIteString"] = verifAPI["verifIteInt"]
 	verifAPI["verifIteBool"] = verifAPI["verifIteInt"]
 	verifAPI["verifAnd"] = func(fr *frame, args []value) value {
+		if b, ok := args[0].(bool); ok {
+			if !b {
+				return false
+			}
+			return args[1]
+		}
+		if b, ok := args[1].(bool); ok {
+			if !b {
+				return false
+			}
+			return args[0]
+		}
+		if isTerm(args[0]) || isTerm(args[1]) {
+			return &Term{s: "(and " + fr.toTerm(args[0], nil).s + " " + fr.toTerm(args[1], nil).s + ")"}
+		}
 		return fr.lift(args, func(a []value) value { return a[0].(bool) && a[1].(bool) })
 	}
 	verifAPI["verifOr"] = func(fr *frame, args []value) value {
+		if b, ok := args[0].(bool); ok {
+			if b {
+				return true
+			}
+			return args[1]
+		}
+		if b, ok := args[1].(bool); ok {
+			if b {
+				return true
+			}
+			return args[0]
+		}
+		if isTerm(args[0]) || isTerm(args[1]) {
+			return &Term{s: "(or " + fr.toTerm(args[0], nil).s + " " + fr.toTerm(args[1], nil).s + ")"}
+		}
 		return fr.lift(args, func(a []value) value { return a[0].(bool) || a[1].(bool) })
+	}
+	verifAPI["verifNot"] = func(fr *frame, args []value) value { return fr.unopNot(args[0]) }
+	verifAPI["verifEqInt"] = func(fr *frame, args []value) value {
+		return fr.binop(token.EQL, nil, args[0], args[1])
+	}
+	verifAPI["verifEqString"] = verifAPI["verifEqInt"]
+	verifAPI["verifTermInt"] = func(fr *frame, args []value) value {
+		if _, ok := args[0].(*Sym); ok {
+			return fr.toTerm(args[0], nil)
+		}
+		return args[0]
+	}
+	verifAPI["verifTermBool"] = verifAPI["verifTermInt"]
+	sel := func(fr *frame, args []value) value {
+		menu := args[1].([]value)
+		return fr.lift([]value{args[0], menu}, func(a []value) value {
+			return a[1].([]value)[asInt64(a[0])]
+		})
+	}
+	verifAPI["verifSelectString"] = sel
+	verifAPI["verifSelectInt"] = sel
+	verifAPI["verifSelectBool"] = sel
+	verifAPI["verifLookupString"] = func(fr *frame, args []value) value {
+		return fr.lift(args, func(a []value) value {
+			for i, m := range a[0].([]value) {
+				if m.(string) == a[1].(string) {
+					return i
+				}
+			}
+			return -1
+		})
 	}
 	verifAPI["verifHook"] = func(fr *frame, args []value) value {
 		fr.i.ctx.env.hooks[fr.concreteString(args[0])] = args[1].(iface).v
@@ -303,4 +377,9 @@ func classOf(label string) string {
 		return label[:3]
 	}
 	return ""
+}
+
+func isTerm(v value) bool {
+	_, ok := v.(*Term)
+	return ok
 }
